@@ -55,6 +55,8 @@ type PoolResult struct {
 	Cuts     int
 	Outcome  string
 	Dials    int
+	// ElapsedSec is how much virtual time the explorer let pass (whole seconds, rounded up).
+	ElapsedSec uint32
 }
 
 func (r *PoolResult) Choices() []int {
@@ -194,7 +196,7 @@ func RunPool(sc PoolScenario, prefix []int) *PoolResult {
 				evs = append(evs, ev{"start", i})
 			}
 		}
-		if sc.Late && allDone && cutsLeft == 0 && !started[n] {
+		if sc.Late && allDone && !started[n] {
 			opts = append(opts, "start-late")
 			evs = append(evs, ev{"late", n})
 		}
@@ -210,7 +212,7 @@ func RunPool(sc PoolScenario, prefix []int) *PoolResult {
 		}
 		opts = append(opts, "advance-time")
 		evs = append(evs, ev{"advance", 0})
-		if cutsLeft > 0 {
+		if cutsLeft > 0 && !started[n] {
 			mu.Lock()
 			for j, pc := range pconns {
 				if !pc.PeerClosed && !pc.LocalClosed {
@@ -237,6 +239,7 @@ func RunPool(sc PoolScenario, prefix []int) *PoolResult {
 			time.Sleep(poolBatchDelay)
 			if sc.MaxCuts > 0 {
 				time.Sleep(1100 * time.Millisecond)
+				res.ElapsedSec += 2
 			}
 		case "cut":
 			cutsLeft--
